@@ -352,18 +352,23 @@ typedef struct {
 static inline uint8_t gpat(const gbuf_t *g, size_t i) {
     return (uint8_t)(g->pat + i * 37u);
 }
+static size_t g_gbuf_off = 0; /* start misalignment (0..15) applied to the next gbuf_alloc; the end stays exact */
 static void gbuf_alloc(gbuf_t *g, size_t n, size_t post, uint8_t pat) {
     g->n = n;
     g->pat = pat;
+    size_t off = g_gbuf_off;
 #if VERIF_ASAN
     g->post = 0;
-    g->base = malloc(n); /* malloc(0) gives a 0-byte block with red zones */
-    g->p = g->base;
+    g->base = malloc(off + n); /* malloc(0) gives a 0-byte block with red zones */
+    g->p = g->base + off;
     (void)post;
 #else
     g->post = post;
-    g->base = malloc(GBUF_PRE + n + post);
-    g->p = g->base + GBUF_PRE;
+    g->base = malloc(GBUF_PRE + off + n + post);
+    g->p = g->base + GBUF_PRE + off;
+    for (size_t i = 0; i < off; i++) {
+        g->base[GBUF_PRE + i] = 0x3D;
+    }
     for (size_t i = 0; i < GBUF_PRE; i++) {
         g->base[i] = gpat(g, i);
     }
